@@ -13,6 +13,10 @@ import sys
 import traceback
 
 
+class ReplayError(BaseException):
+    """the recorded counterexample cannot be replayed (values missing): inconclusive, never a violation"""
+
+
 class ReplayFactory:
     symbolic = False
 
@@ -26,7 +30,7 @@ class ReplayFactory:
 
     def _get(self, name):
         if name not in self.args:
-            raise KeyError("replay value for %r missing" % name)
+            raise ReplayError("replay value for %r missing" % name)
         return self.args[name]
 
     def int(self, name, lo=None, hi=None):
